@@ -2,12 +2,12 @@
 C06, the covering cut bounds the chart — part 2: the invariant of the machine under the admission rule of the code
 (`Policy.acyclic`: duplicate ⇔ same item and same children, `complete` cut by the covering sets).
 
-`Inv c m`: every state of column `j` has an item of the core item space and its children in the level
+`TInv c m`: every state of column `j` has an item of the core item space and its children in the level
 `K c (lvl c m.k j s)` (`Proofs/EarleyBoundK.lean`) — `base c j + lr c j s` for the columns still being built,
 `base c m.k` for the finished ones —, the states of a column being built are pairwise different under the admission
 test, the finished columns are no longer than `chartBound c`; the completed state of an active `complete` call is
 not cut (its nonterminal is not in its covering set).  `step_inv`: every step keeps it (scan, predict, complete —
-also the completions that end `predict` — and the repetition shortcut).  `inv_bounded`: it bounds every column by
+also the completions that end `predict` — and the repetition shortcut).  `tinv_bounded`: it bounds every column by
 `chartBound c`.  `run_acyclic_finishes`: hence the run stops within `stepBoundN c (chartBound c) + 1` steps.
 -/
 import Proofs.EarleyBoundK
@@ -437,7 +437,7 @@ theorem chartInv_shortcut {c : Cfg} {cols : List Col} {k : Nat} (hw : ChartInv c
 
 /-! ### the machine -/
 
-structure Inv (c : Cfg) (m : M) : Prop where
+structure TInv (c : Cfg) (m : M) : Prop where
   ch : ChartInv c m.cols m.k
   fr : ∀ t i, m.frame = some (t, i) → PS c m.k m.k t ∧ cyclicAt .acyclic m.k t = false
   pd : ∀ t, t ∈ m.pending → PS c m.k m.k t
@@ -449,7 +449,7 @@ theorem chartInv_replicate (c : Cfg) : ChartInv c (List.replicate c.ncols {}) 0 
   nd := by intro j _; rw [colAt_replicate]; simp
   capOld := by intro j h; omega
 
-theorem inv_init {c : Cfg} (hp : c.policy = .acyclic) : Inv c (M.init c) where
+theorem tinv_init {c : Cfg} (hp : c.policy = .acyclic) : TInv c (M.init c) where
   ch := by
     unfold M.init
     rw [hp]
@@ -458,12 +458,12 @@ theorem inv_init {c : Cfg} (hp : c.policy = .acyclic) : Inv c (M.init c) where
   fr := by intro t i h; unfold M.init at h; cases h
   pd := by intro t h; unfold M.init at h; cases h
 
-theorem inv_bounded {c : Cfg} {m : M} (h : Inv c m) : LenOK (chartBound c) m.cols :=
+theorem tinv_bounded {c : Cfg} {m : M} (h : TInv c m) : LenOK (chartBound c) m.cols :=
   fun j => chartInv_bounded h.ch j
 
 /-- **one step under the admission rule of the code keeps the invariant** -/
-theorem step_inv {c : Cfg} (hs : Sane c) (hp : c.policy = .acyclic) {m m' : M} (hw : Inv c m)
-    (h : step c m = .next m') : Inv c m' := by
+theorem step_inv {c : Cfg} (hs : Sane c) (hp : c.policy = .acyclic) {m m' : M} (hw : TInv c m)
+    (h : step c m = .next m') : TInv c m' := by
   have hlen := hw.ch.len
   unfold step at h
   split at h
@@ -571,7 +571,7 @@ theorem step_inv {c : Cfg} (hs : Sane c) (hp : c.policy = .acyclic) {m m' : M} (
                     (by intro t i hh; simp [hfr] at hh), (by intro t hh; simp [hpend] at hh)⟩
 
 theorem run_inv {c : Cfg} (hs : Sane c) (hp : c.policy = .acyclic) :
-    ∀ (n : Nat) (m0 m : M), Inv c m0 → run c n m0 = .next m → Inv c m := by
+    ∀ (n : Nat) (m0 m : M), TInv c m0 → run c n m0 = .next m → TInv c m := by
   intro n
   induction n with
   | zero => intro m0 m hw h; unfold run at h; cases h; exact hw
@@ -583,7 +583,7 @@ theorem run_inv {c : Cfg} (hs : Sane c) (hp : c.policy = .acyclic) :
 /-- every chart the machine of the code builds is bounded by `chartBound c` -/
 theorem run_chart_bounded {c : Cfg} (hs : Sane c) (hp : c.policy = .acyclic) (n : Nat) (m : M)
     (h : run c n (M.init c) = .next m) (j : Nat) : (colAt m.cols j).states.length ≤ chartBound c :=
-  inv_bounded (run_inv hs hp n _ m (inv_init hp) h) j
+  tinv_bounded (run_inv hs hp n _ m (tinv_init hp) h) j
 
 /-- **the machine of the code stops**: within `stepBoundN c (chartBound c) + 1` steps -/
 theorem run_acyclic_finishes {c : Cfg} (hs : Sane c) (hp : c.policy = .acyclic) :
